@@ -365,7 +365,7 @@ pub fn goldens() -> Vec<Golden> {
             let a = Action::Borrow { u: 1, b: 0, amt: 1_000_000 };
             Tx::one(act::user_ix(&e.w, s, &a, signer).unwrap(), &[signer])
         }),
-        banks: vec![0, 1],
+        banks: vec![0],
     });
     v.push(Golden {
         name: "marginfi_account_close",
